@@ -68,6 +68,9 @@ pub enum Live {
     ArrayI8(Vec<i8>),
     ArrayBool(Vec<bool>),
     ArrayUnit(usize),
+    /// containers of zero-sized elements at their real types: 0 HashSet<()>, 1 BTreeSet<()>, 2 LinkedList<()>,
+    /// 3 HashMap<(), ()>, 4 BTreeMap<(), ()>, 5 HashSet<PhantomData<u64>>, with their element count
+    Zst(u8, usize),
     Bytes(bytes::Bytes),
     LinkedList(LinkedList<Live>),
     HashSet(HashSet<Live>),
@@ -253,6 +256,12 @@ impl Live {
             (Vec(e), Val::Seq(xs)) if **e == I8 => Live::VecI8(xs.iter().map(|x| x.as_int() as i8).collect()),
             (Vec(e), Val::Seq(xs)) if **e == Bool => Live::VecBool(xs.iter().map(|x| matches!(x, Val::Bool(true))).collect()),
             (Vec(e), Val::Seq(xs)) if **e == Unit => Live::VecUnit(vec![(); xs.len()]),
+            (HashSet(e), Val::Seq(xs)) if **e == Unit => Live::Zst(0, xs.len().min(1)),
+            (HashSet(e), Val::Seq(xs)) if **e == Phantom => Live::Zst(5, xs.len().min(1)),
+            (BTreeSet(e), Val::Seq(xs)) if **e == Unit => Live::Zst(1, xs.len().min(1)),
+            (LinkedList(e), Val::Seq(xs)) if **e == Unit => Live::Zst(2, xs.len()),
+            (HashMap(k, w), Val::Map(ps)) if **k == Unit && **w == Unit => Live::Zst(3, ps.len().min(1)),
+            (BTreeMap(k, w), Val::Map(ps)) if **k == Unit && **w == Unit => Live::Zst(4, ps.len().min(1)),
             (Array(e, _), Val::Seq(xs)) if **e == I8 => Live::ArrayI8(xs.iter().map(|x| x.as_int() as i8).collect()),
             (Array(e, _), Val::Seq(xs)) if **e == Bool => Live::ArrayBool(xs.iter().map(|x| matches!(x, Val::Bool(true))).collect()),
             (Array(e, _), Val::Seq(xs)) if **e == Unit => Live::ArrayUnit(xs.len()),
@@ -351,6 +360,8 @@ impl Live {
             Live::VecBool(xs) | Live::ArrayBool(xs) => Val::Seq(xs.iter().map(|x| Val::Bool(*x)).collect()),
             Live::VecUnit(xs) => Val::Seq(vec![Val::Unit; xs.len()]),
             Live::ArrayUnit(n) => Val::Seq(vec![Val::Unit; *n]),
+            Live::Zst(3 | 4, n) => Val::Map(vec![(Val::Unit, Val::Unit); *n]),
+            Live::Zst(_, n) => Val::Seq(vec![Val::Unit; *n]),
             Live::Bytes(b) => Val::Bytes(b.to_vec()),
             Live::LinkedList(xs) => Val::Seq(xs.iter().map(|x| x.to_val()).collect()),
             Live::HashSet(xs) => Val::Seq(xs.iter().map(|x| x.to_val()).collect()),
@@ -476,6 +487,12 @@ impl BinarySerializer for Live {
             Live::ArrayI8(xs) => arr_dispatch!(xs.len(), ser_arr, [_, _], xs.clone(), ctx),
             Live::ArrayBool(xs) => arr_dispatch!(xs.len(), ser_arr, [_, _], xs.clone(), ctx),
             Live::ArrayUnit(n) => arr_dispatch!(*n, ser_arr, [_, _], vec![(); *n], ctx),
+            Live::Zst(0, n) => (0..*n).map(|_| ()).collect::<std::collections::HashSet<()>>().serialize(ctx),
+            Live::Zst(1, n) => (0..*n).map(|_| ()).collect::<std::collections::BTreeSet<()>>().serialize(ctx),
+            Live::Zst(2, n) => (0..*n).map(|_| ()).collect::<std::collections::LinkedList<()>>().serialize(ctx),
+            Live::Zst(3, n) => (0..*n).map(|_| ((), ())).collect::<std::collections::HashMap<(), ()>>().serialize(ctx),
+            Live::Zst(4, n) => (0..*n).map(|_| ((), ())).collect::<std::collections::BTreeMap<(), ()>>().serialize(ctx),
+            Live::Zst(_, n) => (0..*n).map(|_| PhantomData::<u64>).collect::<std::collections::HashSet<PhantomData<u64>>>().serialize(ctx),
             Live::Bytes(b) => b.serialize(ctx),
             Live::LinkedList(xs) => xs.serialize(ctx),
             Live::HashSet(xs) => xs.serialize(ctx),
@@ -590,6 +607,12 @@ pub fn decode_as(ty: &Ty, ctx: &mut DeserializationContext<'_>) -> Result<Live> 
         Vec(e) if **e == I8 => Live::VecI8(std::vec::Vec::<i8>::deserialize(ctx)?),
         Vec(e) if **e == Bool => Live::VecBool(std::vec::Vec::<bool>::deserialize(ctx)?),
         Vec(e) if **e == Unit => Live::VecUnit(std::vec::Vec::<()>::deserialize(ctx)?),
+        HashSet(e) if **e == Unit => Live::Zst(0, std::collections::HashSet::<()>::deserialize(ctx)?.len()),
+        HashSet(e) if **e == Phantom => Live::Zst(5, std::collections::HashSet::<PhantomData<u64>>::deserialize(ctx)?.len()),
+        BTreeSet(e) if **e == Unit => Live::Zst(1, std::collections::BTreeSet::<()>::deserialize(ctx)?.len()),
+        LinkedList(e) if **e == Unit => Live::Zst(2, std::collections::LinkedList::<()>::deserialize(ctx)?.len()),
+        HashMap(k, w) if **k == Unit && **w == Unit => Live::Zst(3, std::collections::HashMap::<(), ()>::deserialize(ctx)?.len()),
+        BTreeMap(k, w) if **k == Unit && **w == Unit => Live::Zst(4, std::collections::BTreeMap::<(), ()>::deserialize(ctx)?.len()),
         Vec(e) => {
             let _g = FrameGuard::push(vec![(**e).clone()]);
             Live::Vec(std::vec::Vec::<Live>::deserialize(ctx)?)
